@@ -6,10 +6,10 @@
 //! The hooks do not change behaviour by themselves: as long as no [`Scheduler`] is installed on
 //! the current thread, every shimmed function forwards to tokio unchanged.
 use std::{
-    cell::RefCell,
+    cell::{Cell, RefCell},
     future::Future,
     pin::Pin,
-    rc::Rc,
+    sync::Arc,
     task::{Context, Poll, Waker},
 };
 
@@ -18,7 +18,7 @@ pub mod tokio_shim;
 
 /// Decides which spawned task may make its next step.
 /// Installed per thread by the simulation harness.
-pub trait Scheduler {
+pub trait Scheduler: Send + Sync {
     /// A new task is being spawned; returns its id. Called on the spawning thread.
     fn new_task(&self) -> u64;
     /// Task `id` has been polled by the runtime. Returns `true` iff the task
@@ -29,19 +29,84 @@ pub trait Scheduler {
     fn after_poll(&self, id: u64, done: bool);
     /// Task `id` has been dropped (whether it completed or not).
     fn task_dropped(&self, id: u64);
+
+    // --- blocking tasks: real OS threads, only one of which (or the runtime thread) runs at any
+    // --- instant; the scheduler decides which ("baton passing").
+    /// A blocking task is being created (on the thread holding the baton); returns its id.
+    fn new_blocking(&self) -> u64;
+    /// Called on the blocking thread: parks it until the scheduler grants it the baton.
+    fn blocking_wait_grant(&self, id: u64);
+    /// Called on the blocking thread holding the baton: hands the baton back and (unless
+    /// `Done`) parks until it is granted again.
+    fn blocking_yield(&self, id: u64, how: Yield);
+    /// A waker which makes the blocked thread `id` ready again.
+    fn blocking_waker(&self, id: u64) -> Waker;
+}
+
+/// Why a blocking thread gives the baton back.
+#[derive(Debug, Clone, Copy, PartialEq, Eq)]
+pub enum Yield {
+    /// It waits for its waker (a `block_on` whose future is pending).
+    Blocked,
+    /// It reached a preemption point and could go on at once.
+    Preempted,
+    /// Its closure has returned (or panicked).
+    Done,
 }
 
 thread_local! {
-    static SCHEDULER: RefCell<Option<Rc<dyn Scheduler>>> = const { RefCell::new(None) };
+    static SCHEDULER: RefCell<Option<Arc<dyn Scheduler>>> = const { RefCell::new(None) };
+    /// Id of the simulated blocking task running on this thread (0 = not a blocking thread).
+    static BLOCKING_ID: Cell<u64> = const { Cell::new(0) };
+    static NO_PREEMPT: Cell<u32> = const { Cell::new(0) };
 }
 
 /// Installs (or removes) the scheduler of the current thread.
-pub fn install_scheduler(s: Option<Rc<dyn Scheduler>>) {
+pub fn install_scheduler(s: Option<Arc<dyn Scheduler>>) {
     SCHEDULER.with(|x| *x.borrow_mut() = s);
 }
 
-fn scheduler() -> Option<Rc<dyn Scheduler>> {
+pub(crate) fn scheduler() -> Option<Arc<dyn Scheduler>> {
     SCHEDULER.with(|x| x.borrow().clone())
+}
+
+/// Id of the simulated blocking task running on the current thread, if any.
+pub fn current_blocking_id() -> Option<u64> {
+    let id = BLOCKING_ID.with(|x| x.get());
+    (id != 0).then_some(id)
+}
+
+pub(crate) fn set_blocking_id(id: u64) {
+    BLOCKING_ID.with(|x| x.set(id));
+}
+
+/// Preemption point inside synchronous code: on a simulated blocking thread the scheduler may
+/// let another thread / task run here; everywhere else it is a no-op.
+pub fn preempt() {
+    let Some(id) = current_blocking_id() else { return };
+    if NO_PREEMPT.with(|x| x.get()) > 0 {
+        return;
+    }
+    if let Some(s) = scheduler() {
+        s.blocking_yield(id, Yield::Preempted);
+    }
+}
+
+/// While alive, `preempt()` is a no-op on this thread (held across critical sections).
+pub struct NoPreempt(());
+
+impl NoPreempt {
+    #[allow(clippy::new_without_default)]
+    pub fn new() -> Self {
+        NO_PREEMPT.with(|x| x.set(x.get() + 1));
+        Self(())
+    }
+}
+
+impl Drop for NoPreempt {
+    fn drop(&mut self) {
+        NO_PREEMPT.with(|x| x.set(x.get() - 1));
+    }
 }
 
 /// Whether a scheduler is installed on this thread.
